@@ -829,6 +829,31 @@ func scopesOK(S []uint64, T []uint64) bool {
 	})
 }
 
+// open scopes: every stack entry designates an opener that is still unpatched (payload 0): the root tag at the
+// bottom, object / array starts above it; the openers lie at increasing tape positions; an entry that returns
+// to an object (array) state sits directly inside an object (array)
+func openOK(S []uint64, T []uint64) bool {
+	return forall(0, len(S), func(k int) bool {
+		return payOf(T[S[k]>>retAddressShift]) == 0 &&
+			implies(k == 0, tagOf(T[S[k]>>retAddressShift]) == TagRoot) &&
+			implies(k >= 1, tagOf(T[S[k]>>retAddressShift]) == TagObjectStart || tagOf(T[S[k]>>retAddressShift]) == TagArrayStart)
+	})
+}
+func orderedScopes(S []uint64) bool {
+	return forall(0, len(S), func(k1 int) bool {
+		return forall(k1+1, len(S), func(k2 int) bool { return S[k1]>>retAddressShift < S[k2]>>retAddressShift })
+	})
+}
+func kindsOK(S []uint64, T []uint64) bool {
+	return forall(2, len(S), func(k int) bool {
+		return implies(S[k]&3 == retAddressObjectConst, tagOf(T[S[k-1]>>retAddressShift]) == TagObjectStart) &&
+			implies(S[k]&3 == retAddressArrayConst, tagOf(T[S[k-1]>>retAddressShift]) == TagArrayStart)
+	})
+}
+func topKind(S []uint64, T []uint64, t Tag) bool {
+	return len(S) >= 1 && tagOf(T[S[len(S)-1]>>retAddressShift]) == t
+}
+
 //@ func (*internalParsedJson).unifiedMachine
 //@   props C05 C17
 //@   requires chanStateOK(pj) && len(pj.containingScopeOffset) == 0 && len(pj.Message) < 1<<40 && pj.Strings != nil
